@@ -1507,7 +1507,7 @@ Section Main.
       as (st0 & st1 & st2 & is2 & Hs & H1 & H2 & H3); auto.
     - unfold zlen. lia.
     - intros i j a b Hi. lia.
-    - cbn in Hs. inversion Hs; subst st0. eauto. Show.
+    - cbn in Hs. inversion Hs; subst st0. exists st1, st2, is2. auto.
   Qed.
 
   (* preset prefix (co_varnames): the preset entries must have keys that occur nowhere else *)
@@ -1540,7 +1540,30 @@ Section Main.
       fa_to_tuple st2 = OK tbl.
   Proof.
     intros tbl p idxs uses st adds Hdf Hp. apply tables_replay_preset_unique; auto.
-    apply dup_free_preset_unique; [lia | exact Hdf].
+    apply dup_free_preset_unique; auto; lia.
+  Qed.
+
+  (* (ii), encoder side: replaying the additional args yields exactly the unused indices *)
+  Theorem adds_replay_indices : forall (tbl : list T) p idxs uses st adds st0 st1 st2 is1 is2,
+    0 <= p <= zlen tbl -> preset_unique keq tbl p ->
+    Forall (fun i => 0 <= i < zlen tbl) idxs ->
+    found_all keq (toargs_init tbl p) idxs = OK (uses, st) ->
+    additional_args keq st = OK adds ->
+    set_all keq (take p tbl) 0 fromargs_empty = OK st0 ->
+    add_all keq st0 uses = OK (is1, st1) ->
+    add_all keq st1 adds = OK (is2, st2) ->
+    is1 = idxs /\ is2 = unused tbl p idxs /\ StronglySorted Z.lt is2 /\
+    (forall i, In i is2 <-> 0 <= i < zlen tbl /\ ~ 0 <= i < p /\ ~ In i idxs).
+  Proof.
+    intros tbl p idxs uses st adds st0 st1 st2 is1 is2 Hp Hu HF Hf Hadd Hs H1 H2.
+    destruct (replay_core keq keq_refl keq_sym keq_trans tbl p idxs uses st adds Hp Hu HF Hf Hadd)
+      as (st' & fs0 & fs1 & fs2 & _ & Hs' & _ & _ & H1' & _ & _ & H2' & _).
+    assert (fs0 = st0) by congruence. subst fs0.
+    rewrite H1 in H1'. inversion H1'; subst is1 fs1.
+    rewrite H2 in H2'. inversion H2'; subst is2 fs2.
+    rewrite (missing_unused keq tbl p idxs uses st Hf).
+    split; [reflexivity|]. split; [reflexivity|]. split; [apply unused_sorted|].
+    intros i. apply in_unused.
   Qed.
 End Main.
 
@@ -1549,6 +1572,7 @@ Print Assumptions tables_replay.
 Print Assumptions tables_replay_preset_unique_keys.
 Print Assumptions tables_replay_preset.
 Print Assumptions adds_exact.
+Print Assumptions adds_replay_indices.
 Print Assumptions overrides_rank.
 Print Assumptions canonical_no_override.
 Print Assumptions override_necessary.
